@@ -9,7 +9,10 @@ package c13
 // listed name (i = its position, from 1); ONE file-based loader over it (its parent: a fresh parented loader over the
 // static loader); every thread loads names (of either letter case) through a context of its own whose loader it is.
 // Yield points: "op", "filebased.loadentry" (LoadEntry, after the ancestors and the first own look missed),
+// "filebased.instantiate.enter" (instantiate, before the lock table and the name mutex),
 // "filebased.instantiate.placeholder" (instantiate, name mutex held, placeholder installed, before the instantiator).
+// A schedule entry for a thread that is parked at "enter" while another thread is parked at "placeholder" of the same
+// name is skipped: it would block in nameLock.Lock() (the model's scheduler has the same rule).
 // Output: `0:[found (al x41 1) ; notfound] 1:[…] | reads x61=1 x62=0` (reads = calls of GetContent per file, counted by
 // the C15 hook loader.VerifReads).
 // Predicate classes: `instantiated-twice` (a file was read more than once), `not-linearizable-placeholder-visible` (a
@@ -103,9 +106,23 @@ func execFiles(args []sx.Sexp) core.Result {
 	}
 	loader.VerifResetReads()
 	accept := func(site string) bool {
-		return site == "op" || site == "filebased.loadentry" || site == "filebased.instantiate.placeholder"
+		return site == "op" || site == "filebased.loadentry" || site == "filebased.instantiate.enter" || site == "filebased.instantiate.placeholder"
 	}
-	outs, sites, preempted := runThreads(len(progs), accept, func(t int) int { return len(progs[t]) }, func(t, i int) string {
+	// a thread parked at the entry of instantiate would block in nameLock.Lock() while another thread is parked between
+	// the placeholder and the instantiator of the same name (it holds the name's mutex): such a thread is not released
+	blocked := func(t int, parkedAt []string, curStep []int) bool {
+		if parkedAt[t] != "filebased.instantiate.enter" {
+			return false
+		}
+		for u := range progs {
+			if u != t && parkedAt[u] == "filebased.instantiate.placeholder" &&
+				strings.EqualFold(progs[u][curStep[u]], progs[t][curStep[t]]) {
+				return true
+			}
+		}
+		return false
+	}
+	outs, sites, preempted := runThreadsB(len(progs), accept, blocked, func(t int) int { return len(progs[t]) }, func(t, i int) string {
 		var v interface{}
 		var ok bool
 		if r := c12.Safely(func() { v, ok = px.Load(ctxs[t], px.NewTypedName(px.NsType, progs[t][i])) }); r != "" {
@@ -162,7 +179,8 @@ func execFiles(args []sx.Sexp) core.Result {
 }
 
 func genFiles(g *core.G) {
-	// exhaustive: files {a}; two threads, programs of <= 2 loads over {a, A, b}; every schedule (a load needs <= 3 slots)
+	// exhaustive: files {a}; two threads, programs of <= 2 loads over {a, A, b}; a load needs <= 4 slots: every schedule for
+	// single loads (quick) / all pairs (thorough), every schedule with <= 2 switches otherwise (quick)
 	names := []string{"x61", "x41", "x62"}
 	var progs [][]string
 	for _, x := range names {
@@ -183,9 +201,12 @@ func genFiles(g *core.G) {
 			if j < i {
 				continue
 			}
-			interleavings([]int{3 * len(p), 3 * len(q)}, func(s []int) {
-				g.Emit("files (files x61) (threads " + th(p) + " " + th(q) + ") " + schedStr(s))
-			})
+			emit := func(s []int) { g.Emit("files (files x61) (threads " + th(p) + " " + th(q) + ") " + schedStr(s)) }
+			if len(p)+len(q) > 2 && !g.Thorough() {
+				bounded([]int{4 * len(p), 4 * len(q)}, 2, emit)
+			} else {
+				interleavings([]int{4 * len(p), 4 * len(q)}, emit)
+			}
 		}
 	}
 	// random: files ⊆ {a, b, c}, 2–4 threads × 1–3 loads
@@ -205,7 +226,7 @@ func genFiles(g *core.G) {
 			var p []string
 			for j, m := 0, 1+r.Intn(3); j < m; j++ {
 				p = append(p, all[r.Intn(len(all))])
-				total += 3
+				total += 4
 			}
 			ths = append(ths, th(p))
 		}
